@@ -192,7 +192,7 @@ async fn process_bufs(
 }
 //!end
 
-//!fn src/app/log.rs process_reader rules=R1,R7,R10,R11,R17 props=C08,C20
+//!fn src/app/log.rs process_reader rules=R1,R7,R10,R11,R17 props=C08,C20,C15
 @#[verifier::exec_allows_no_decreases_clause]
 pub(crate) async fn process_reader<R>(
     reader__0: tokio::io::BufReader<R>,
@@ -208,7 +208,8 @@ where
 @    ensures
 @        // C08: when the stream was read to its end, exactly its bytes, in order, were handed to this task's encoder -
 @        // whatever the chunking, pauses across flush ticks, missing trailing newline or binary content
-@        res is Ok ==> final(w).sink[compressor_client.key()] == old(w).sink[compressor_client.key()] + reader__0.rest, // [C08]
+@        // (C15: with or without a listener, whatever the listener's filters or fate - log_stream_client__0 is unconstrained)
+@        res is Ok ==> final(w).sink[compressor_client.key()] == old(w).sink[compressor_client.key()] + reader__0.rest, // [C08,C15]
 @        // C08 isolation: nothing is ever handed to another task's encoder
 @        forall|k: (int, int)| k != compressor_client.key() ==> final(w).sink[k] == old(w).sink[k], // [C08]
 @        // C20: for newline-terminated output every flush - in particular every timer flush - hands the listener whole lines only, so
@@ -229,7 +230,7 @@ where
 @            key == compressor_client.key(), w.sink.dom().contains(key),
 @            s0 == old(w).sink[key], stream == reader__0.rest,
 @            // C08: every byte consumed from the stream is in the encoder or in the line buffer, in order
-@            conserved(w.sink[key], Seq::<u8>::empty(), buf@, s0, reader.consumed, reader.rest, stream), // [C08]
+@            conserved(w.sink[key], Seq::<u8>::empty(), buf@, s0, reader.consumed, reader.rest, stream), // [C08,C15]
 @            forall|k: (int, int)| k != key ==> w.sink[k] == old(w).sink[k],
 @            buf_at_end(buf@, reader.consumed),
 @            (nl_terminated(stream) && !old(w).midline) ==> !w.midline,
@@ -238,7 +239,7 @@ where
 @        proof { lemma_all_lines_empty(bufs@); lemma_flat_empty(bufs@); }
         loop
 @            invariant_except_break
-@                conserved(w.sink[key], flat(bufs@), buf@, s0, reader.consumed, reader.rest, stream), // [C08]
+@                conserved(w.sink[key], flat(bufs@), buf@, s0, reader.consumed, reader.rest, stream), // [C08,C15]
 @            invariant
 @                key == compressor_client.key(), w.sink.dom().contains(key), s0 == old(w).sink[key], stream == reader__0.rest,
 @                forall|k: (int, int)| k != key ==> w.sink[k] == old(w).sink[k],
